@@ -12,6 +12,7 @@
 import glob
 import json
 import os
+import shutil
 import signal
 import subprocess
 import time
@@ -91,9 +92,17 @@ def gen_history(i, naddr, nverp):
 
 
 def harness_worker(bdir, hbin, lo, hi, naddr, nverp):
+    # pool workers do not run atexit handlers: remove the scratch directory here
+    top = build.mktemp("nqv-c10-h-")
+    try:
+        return _harness_worker(bdir, hbin, lo, hi, naddr, nverp, top)
+    finally:
+        shutil.rmtree(top, ignore_errors=True)
+
+
+def _harness_worker(bdir, hbin, lo, hi, naddr, nverp, top):
     res = core.Result()
     b = build.Build("asan", bdir)
-    top = build.mktemp("nqv-c10-h-")
     for i in range(lo, hi):
         raw, stages, files, ops = gen_history(i, naddr, nverp)
         home = os.path.join(top, "h%d" % i)
@@ -209,7 +218,6 @@ def harness_worker(bdir, hbin, lo, hi, naddr, nverp):
                                  "observed": core.hx(got), "expected": core.hx(exp)})
                 elif exp != s:
                     res.sample({"sender": core.hx(s), "recipient": core.hx(r), "expanded": core.hx(got)}, cap=1)
-        import shutil
         shutil.rmtree(home, ignore_errors=True)
     return res
 
@@ -470,9 +478,16 @@ def daemon_history(b, home, i, res):
 
 
 def daemon_worker(bdir, lo, hi):
+    top = build.mktemp("nqv-c10-d-")
+    try:
+        return _daemon_worker(bdir, lo, hi, top)
+    finally:
+        shutil.rmtree(top, ignore_errors=True)
+
+
+def _daemon_worker(bdir, lo, hi, top):
     res = core.Result()
     b = build.Build("asan", bdir)
-    top = build.mktemp("nqv-c10-d-")
     for i in range(lo, hi):
         for attempt in (0, 1):
             r2 = core.Result()
